@@ -875,7 +875,8 @@ fn c15(args: &Args, report: &Arc<Mutex<Report>>, wd: &Watchdog) {
         v
     };
     statuses.retain(|s| (*s as u64) % args.workers == args.worker);
-    let total = n.max(statuses.len() as u64);
+    // (an explicit --budget, as the sanitizer and Miri lanes pass, is not stretched to the status axis)
+    let total = if args.budget.is_some() { n } else { n.max(statuses.len() as u64) };
     for case_no in 0..total {
         let mut rng = Rng::derive(seed, case_no, 15);
         let si = rng.usize_below(6);
